@@ -235,6 +235,12 @@ impl Gen {
         if rng.chance(1, 6) {
             times.push(1);
         }
+        if rng.chance(1, 8) {
+            // around 2^32 and 2^63 (truncation to 32 bits, sign confusion)
+            let base = if rng.chance(3, 4) { 1u64 << 32 } else { 1u64 << 63 };
+            times.push(base - rng.range(1, 3));
+            times.push(base + rng.range(0, 3));
+        }
         let odd = rng.chance(p.odd_values_pct, 100);
         let mut values: Vec<String> = vec!["x".into(), "y".into(), "nostr".into(), "".into()];
         let mut dvals: Vec<String> = vec!["x".into(), "y".into(), "".into()];
